@@ -32,7 +32,7 @@ theorem videoTree_safe (abs absSet : String → String) (el : Node) : (videoTree
   stripNode_safe _
 
 /-- below the placeholder's own root every attribute is safe -/
-theorem embedKids_safe (el : Node) : allAttrsSafeL (embedKids el) = true := by
+theorem embedKids_safe (A : CAtoms) (el : Node) : allAttrsSafeL (embedKids A el) = true := by
   unfold embedKids
   split
   · simp [allAttrsSafeL, stripNode_safe]
@@ -50,33 +50,79 @@ def tagsL : List Node → List String
 end
 
 mutual
-theorem dropScriptStyle_kids_clean : (n : Node) → ∀ t ∈ tagsL (dropScriptStyle n).kids, t ≠ "script" ∧ t ≠ "style"
+theorem dropScriptStyle_kids_clean (A : CAtoms) : (n : Node) → ∀ t ∈ tagsL (dropScriptStyle A n).kids, t ≠ "script" ∧ t ≠ "style"
   | .text _ _ => by simp [dropScriptStyle, Node.kids, tagsL]
   | .other _ _ => by simp [dropScriptStyle, Node.kids, tagsL]
   | .elem i t a ks => by
     simp only [dropScriptStyle, Node.kids]
-    exact dropScriptStyleL_clean ks
-theorem dropScriptStyleL_clean : (ks : List Node) → ∀ t ∈ tagsL (dropScriptStyleL ks), t ≠ "script" ∧ t ≠ "style"
+    exact dropScriptStyleL_clean A ks
+theorem dropScriptStyleL_clean (A : CAtoms) : (ks : List Node) → ∀ t ∈ tagsL (dropScriptStyleL A ks), t ≠ "script" ∧ t ≠ "style"
   | [] => by simp [dropScriptStyleL, tagsL]
   | k :: ks => by
     intro x hx
     cases k with
     | text i d =>
       simp only [dropScriptStyleL, dropScriptStyle, tagsL, Node.tags, List.nil_append] at hx
-      exact dropScriptStyleL_clean ks x hx
+      exact dropScriptStyleL_clean A ks x hx
     | other i kd =>
       simp only [dropScriptStyleL, dropScriptStyle, tagsL, Node.tags, List.nil_append] at hx
-      exact dropScriptStyleL_clean ks x hx
+      exact dropScriptStyleL_clean A ks x hx
     | elem i t a ks' =>
       simp only [dropScriptStyleL] at hx
       split at hx
-      · exact dropScriptStyleL_clean ks x hx
+      · exact dropScriptStyleL_clean A ks x hx
       · rename_i hne
         simp only [tagsL, dropScriptStyle, Node.tags, List.cons_append, List.mem_cons, List.mem_append] at hx
         rcases hx with h | h | h
-        · subst h; simpa using hne
-        · exact dropScriptStyleL_clean ks' x h
-        · exact dropScriptStyleL_clean ks x h
+        · subst h
+          have : (¬x = "script" ∧ ¬x = "style") ∧ A.foreignRaw i = false := by simpa using hne
+          exact this.1
+        · exact dropScriptStyleL_clean A ks' x h
+        · exact dropScriptStyleL_clean A ks x h
+end
+
+mutual
+/-- ids of all elements of a subtree -/
+def Node.elemIds : Node → List Nat
+  | .text _ _ => []
+  | .other _ _ => []
+  | .elem i _ _ ks => i :: elemIdsL ks
+def elemIdsL : List Node → List Nat
+  | [] => []
+  | k :: ks => k.elemIds ++ elemIdsL ks
+end
+
+mutual
+/-- no foreign element named like a raw text element survives below the embedded element -/
+theorem dropScriptStyle_kids_noForeign (A : CAtoms) : (n : Node) → ∀ j ∈ elemIdsL (dropScriptStyle A n).kids, A.foreignRaw j = false
+  | .text _ _ => by simp [dropScriptStyle, Node.kids, elemIdsL]
+  | .other _ _ => by simp [dropScriptStyle, Node.kids, elemIdsL]
+  | .elem i t a ks => by
+    simp only [dropScriptStyle, Node.kids]
+    exact dropScriptStyleL_noForeign A ks
+theorem dropScriptStyleL_noForeign (A : CAtoms) : (ks : List Node) → ∀ j ∈ elemIdsL (dropScriptStyleL A ks), A.foreignRaw j = false
+  | [] => by simp [dropScriptStyleL, elemIdsL]
+  | k :: ks => by
+    intro x hx
+    cases k with
+    | text i d =>
+      simp only [dropScriptStyleL, dropScriptStyle, elemIdsL, Node.elemIds, List.nil_append] at hx
+      exact dropScriptStyleL_noForeign A ks x hx
+    | other i kd =>
+      simp only [dropScriptStyleL, dropScriptStyle, elemIdsL, Node.elemIds, List.nil_append] at hx
+      exact dropScriptStyleL_noForeign A ks x hx
+    | elem i t a ks' =>
+      simp only [dropScriptStyleL] at hx
+      split at hx
+      · exact dropScriptStyleL_noForeign A ks x hx
+      · rename_i hne
+        simp only [elemIdsL, dropScriptStyle, Node.elemIds, List.cons_append, List.mem_cons, List.mem_append] at hx
+        rcases hx with h | h | h
+        · subst h
+          have : (¬t = "script" ∧ ¬t = "style") ∧ A.foreignRaw x = false := by simpa using hne
+          exact this.2
+        · exact dropScriptStyleL_noForeign A ks' x h
+        · exact dropScriptStyleL_noForeign A ks x h
 end
 
 mutual
@@ -94,8 +140,8 @@ theorem stripNode_kids (n : Node) : (stripNode n).kids = stripNodeL n.kids := by
 
 /-- **No script or style element survives inside an embed placeholder** (the embedded element's
 own tag is `blockquote` or `iframe`). -/
-theorem embedKids_no_script (el : Node) :
-    ∀ k ∈ embedKids el, (k.tag = "blockquote" ∨ k.tag = "iframe") ∧ ∀ t ∈ tagsL k.kids, t ≠ "script" ∧ t ≠ "style" := by
+theorem embedKids_no_script (A : CAtoms) (el : Node) :
+    ∀ k ∈ embedKids A el, (k.tag = "blockquote" ∨ k.tag = "iframe") ∧ ∀ t ∈ tagsL k.kids, t ≠ "script" ∧ t ≠ "style" := by
   intro k hk
   unfold embedKids at hk
   split at hk
@@ -108,7 +154,7 @@ theorem embedKids_no_script (el : Node) :
       | other _ _ => simp [Node.tag] at htag
       | elem i t a ks => simpa [stripNode, dropScriptStyle, Node.tag] using htag
     · rw [stripNode_kids, stripNodeL_tags]
-      exact dropScriptStyle_kids_clean el
+      exact dropScriptStyle_kids_clean A el
   · cases hk
 
 /-! ## URLs (C06) -/
@@ -241,13 +287,14 @@ theorem cloneAndProcessTree_textIds (A : CAtoms) (abs absSet : String → String
 
 /-- nothing below an element the visibility test rejects, or below script / style, is collected -/
 theorem outputIds_hidden (A : CAtoms) (i : Nat) (t : String) (attrs : List Attr) (ks : List Node)
-    (h : visible A i t attrs = false ∨ t = "script" ∨ t = "style") :
+    (h : visible A i t attrs = false ∨ t = "script" ∨ t = "style" ∨ A.foreignRaw i = true) :
     outputIds A (.elem i t attrs ks) = [] := by
   simp only [outputIds]
-  rcases h with h | h | h
+  rcases h with h | h | h | h
   · split
     · rfl
     · simp [h]
+  · simp [h]
   · simp [h]
   · simp [h]
 
